@@ -19,8 +19,25 @@ type guardSpec struct {
 }
 
 // call dispatches one call site. k continues the path with the call's result.
-func (fr *frame) call(st *PState, site ssa.Instruction, c *ssa.CallCommon, k func(*PState, Val)) {
+func (fr *frame) call(st *PState, site ssa.Instruction, c *ssa.CallCommon, k0 func(*PState, Val)) {
 	ex := fr.ex
+	// remember the latest result of each callee (by bare name) on the path: guard clauses may refer to it
+	cname := ""
+	if c.IsInvoke() {
+		cname = c.Method.Name()
+	} else if f := c.StaticCallee(); f != nil {
+		cname = f.Name()
+	}
+	k := k0
+	if cname != "" && fr.depth == 0 {
+		k = func(st2 *PState, res Val) {
+			if st2.callRes == nil {
+				st2.callRes = map[string]Val{}
+			}
+			st2.callRes[cname] = res
+			k0(st2, res)
+		}
+	}
 	// builtins
 	if b, ok := c.Value.(*ssa.Builtin); ok {
 		k(st, fr.builtin(st, b, c, site))
@@ -368,6 +385,9 @@ func (fr *frame) applyContract(st *PState, ct *Contract, sig *types.Signature, f
 	for _, en := range ct.Ensures {
 		t, err := env2.TrBool(en.Expr)
 		if err != nil {
+			if strings.Contains(err.Error(), "unknown identifier it_") {
+				continue // clause about the callee's internal iterator ghost: not visible to callers
+			}
 			bail("ensures[%s] of %s: %v", en.Label, ShortName(ct.Func), err)
 		}
 		st.Assume(t)
@@ -512,6 +532,15 @@ func (fr *frame) checkGuards(st *PState, qname string, sig *types.Signature, arg
 			if i < len(args) {
 				vars["arg_"+n] = args[i]
 				vars[fmt.Sprintf("arg%d", i)] = args[i]
+			}
+		}
+		for name, res := range st.callRes {
+			if tv, ok := res.(*TupleVal); ok {
+				for i, e := range tv.Elems {
+					vars[fmt.Sprintf("res_%s_%d", name, i)] = e
+				}
+			} else {
+				vars["res_"+name+"_0"] = res
 			}
 		}
 		env := &SpecEnv{ex: fr.ex, vars: vars, cur: st, old: tc.entry, pkg: tc.contract.Pkg, bound: map[string]T{}}
